@@ -340,6 +340,33 @@ def rule_memo(ctx) -> RuleResult:
         for tok in o.summaries[q].mutates:
             if tok[0] == "P":
                 res.report(f"{q}|mutates|{tok[1]}", f.where(), q, f"memoised function writes through its parameter {tok[1]!r}")
+    # (a') the key is as fine as the behaviour: functools.lru_cache / cache compare keys with ==, and 0 == 0.0 == False (1 == 1.0 == True);
+    # a memoised function that applies a *type-sensitive* primitive to a parameter gives the answer of whichever spelling came first
+    TYPE_SENSITIVE = {"np.result_type", "np.promote_types", "np.min_scalar_type", "np.asarray", "np.array", "np.dtype", "type", "isinstance",
+                      "np.can_cast", "np.issubdtype", "np.full", "np.full_like", "pd.Index", "np.isscalar"}
+    for q, f in sorted(prog.funcs.items()):
+        if isinstance(f.node, ast.Lambda):
+            continue
+        for d in f.node.decorator_list:
+            dn = norm(d.func) if isinstance(d, ast.Call) else norm(d)
+            if dn not in ("lru_cache", "functools.lru_cache", "cache", "functools.cache"):
+                continue
+            typed = isinstance(d, ast.Call) and any(k.arg == "typed" and isinstance(k.value, ast.Constant) and k.value.value is True for k in d.keywords)
+            hits = []
+            for c in calls_in(f.node):
+                if norm(c.func) in TYPE_SENSITIVE:
+                    for a in list(c.args) + [k.value for k in c.keywords]:
+                        for nm in ast.walk(a):
+                            if isinstance(nm, ast.Name) and nm.id in f.params:
+                                ann = next((norm(x.annotation) for x in f.node.args.args + f.node.args.kwonlyargs if x.arg == nm.id and x.annotation is not None), "")
+                                if not any(t in ann for t in ("np.dtype", "tuple", "str", "int", "Sequence")) or ann == "":
+                                    hits.append((nm.id, norm(c)[:50]))
+            res.inst(f"{q}: functools cache (typed={typed}); parameters reaching type-sensitive primitives: {sorted(set(h[0] for h in hits))}", f"{q}|typed")
+            if hits and not typed:
+                res.report(f"{q}|untyped-key|{hits[0][0]}", f.where(d), q,
+                           f"{dn} compares keys with ==, so {hits[0][0]}=0, 0.0 and False (1, 1.0, True) share one cache entry, but '{hits[0][1]}' distinguishes "
+                           "their types: the result depends on which spelling was seen first in this process (call-history dependence); use typed=True or "
+                           "do not memoise")
     # (c) callers never write through the returned object: covered by the 'R' tokens in R-ARGS; count them here
     n = 0
     for q, ws in o.writes.items():
